@@ -569,7 +569,7 @@ def _dispatch_events(corpus: Corpus, fi: FunctionInfo, var: str, start, stop, de
     for c in ast.walk(root):
         if isinstance(c, ast.Call) and _is_self_call(c) and c.func.attr not in ("create_warning", "render_children") and any(isinstance(a, ast.Name) and a.id == var for a in list(c.args) + [k.value for k in c.keywords]):
             m = corpus.lookup_method(fi.cls, c.func.attr) if fi.cls is not None else None
-            if m is None or depth >= 2 or not any(_dispatch_calls(m, m.node)):
+            if m is None or m.is_lambda or depth >= 2 or m.fq == fi.fq:
                 continue
             ps = m.params
             pname = None
